@@ -41,6 +41,7 @@ let dispatch (name : string) (args : M.n list) : M.n list list =
   | "DBGT" -> M.run_dbgt args
   | "DBGS" -> M.run_dbgs args
   | "WATCH" -> M.run_watch args
+  | "FEAT" -> M.run_feat args
   | _ -> failwith ("unknown case kind " ^ name)
 
 let () =
